@@ -28,6 +28,17 @@ fn main() {
                     _ => usage(),
                 };
             }
+            "--emit-corpus" => {
+                i += 1;
+                let dir = args.get(i).cloned().unwrap_or_else(|| usage());
+                std::fs::create_dir_all(&dir).ok();
+                if id == "C19" {
+                    for (k, b) in akd_verif::fuzz::c19_seed_corpus().into_iter().enumerate() {
+                        std::fs::write(format!("{dir}/seed-{k}"), b).unwrap();
+                    }
+                }
+                return;
+            }
             "--replay" => {
                 i += 1;
                 replay_path = Some(args.get(i).cloned().unwrap_or_else(|| usage()));
